@@ -71,6 +71,7 @@ func C01(c *core.Ctx) {
 	c.Explain = "Decides structural necessary conditions of C01: (R1.1) Data reaches a face only through Thread.processOutgoingData, which is called only from StrategyBase.SendData and processIncomingData, and SendData only from the strategies' Data callbacks; (R1.2) by backward provenance slicing, the face id of every such call originates only from a key of InRecords() of the PIT entry being satisfied (through the local downstream map in the multi-match branch) or from the requesting face of a cache hit, which processIncomingInterest binds to the incoming face after inserting its in-record; (R1.3) the PIT token sent downstream originates only from that in-record's PitToken (or nil), never from the token carried by the arriving packet; (R1.4) the PIT match rule: an entry is appended only under canBePrefix ∨ exact depth, the token branch returns an entry only under map hit ∧ token equality, and name matching is skipped when a token is present; (R1.5) satisfaction consumes: every emission for an entry is followed by ClearInRecords and SetSatisfied(true) on that entry on all paths, SendData deletes the in-record it used; (R1.6) a cache hit produces exactly one SendData to the requester; (R1.7) no emission when no PIT entry matched. Not decided: the exact multiset of copies for every history, expiry interplay."
 	c.RuleText = "instances: every call of processOutgoingData / SendData / AfterReceiveData / AfterContentStoreHit discovered in the program, every Strategy implementation, the appends and returns of the PIT match functions. Non-trivial = has a provenance leaf set, branch edge or path to decide."
 	p := c.P
+	c01Round4(c)
 	// ---- R1.9 (shared with C08 R8.2) a removed PIT entry is no longer reachable through
 	// its token: otherwise Data carrying that token is matched against a dead entry and
 	// delivered to faces whose Interest is no longer pending
@@ -845,4 +846,138 @@ func lookupKeyIs(v ssa.Value, key ssa.Value) bool {
 	}
 	walk(v)
 	return found && okAll
+}
+
+// c01Round4 — rules for defects a bug-hunting agent demonstrated on the unmodified tree.
+//
+// R1.13 an in-record takes part in delivery only while its Interest is pending: before any
+// emission of processIncomingData the lifetimes of the in-records are compared with the
+// clock (the PIT entry outlives its shorter-lived in-records).
+//
+// R1.14 Data without one of this forwarder's PIT tokens is matched by name in EVERY thread
+// that can hold a matching Interest: the link service dispatches it by all prefixes of its
+// name whatever the scope of the arrival face, and never by its full name alone (an
+// Interest with CanBePrefix is pending in the thread of its own, shorter, name).
+//
+// R1.15 "all prefixes" includes the zero-component prefix: the scan of the prefix hashes
+// starts at index 0 (an Interest for "/" with CanBePrefix lives in that thread).
+func c01Round4(c *core.Ctx) {
+	p := c.P
+	if pid := c.Fn("R1.13", "fw/fw", "Thread", "processIncomingData"); pid != nil {
+		isExpiryTest := func(in ssa.Instruction) bool {
+			ci, ok := in.(ssa.CallInstruction)
+			if !ok {
+				return false
+			}
+			id, ok := core.Callee(ci.Common())
+			if !ok || id.Pkg != "time" || (id.Name != "After" && id.Name != "Before") {
+				return false
+			}
+			r, a := core.CallArgs(ci.Common())
+			for _, v := range append([]ssa.Value{r}, a...) {
+				if v == nil {
+					continue
+				}
+				if _, isF := core.FieldOf(v, "ExpirationTime"); isF {
+					if _, path := core.FieldPath(v); len(path) > 0 {
+						return true
+					}
+				}
+			}
+			return false
+		}
+		var emits []ssa.Instruction
+		core.InstrsDeep(pid, func(in ssa.Instruction) {
+			ci, ok := in.(ssa.CallInstruction)
+			if !ok {
+				return
+			}
+			if ci.Common().IsInvoke() && ci.Common().Method.Name() == "AfterReceiveData" {
+				emits = append(emits, in)
+			}
+			if id, okID := core.Callee(ci.Common()); okID && id.Name == "processOutgoingData" {
+				emits = append(emits, in)
+			}
+		})
+		// (the comparison sits in a loop over the in-records, which a path-insensitive
+		// "on every path" would not accept: required is a comparison from which the
+		// emission is reachable and which the emission does not precede)
+		var tests []ssa.Instruction
+		core.InstrsDeep(pid, func(in ssa.Instruction) {
+			if isExpiryTest(in) {
+				tests = append(tests, in)
+			}
+		})
+		okAll := len(emits) > 0
+		for _, e := range emits {
+			found := false
+			for _, t := range tests {
+				if core.ReachableAfterDeep(pid, t, e) && !core.ReachableAfterDeep(pid, e, t) {
+					found = true
+				}
+			}
+			if !found {
+				okAll = false
+			}
+		}
+		c.Decide(okAll, "R1.13", "expired-in-records-take-no-part", p.Pos(pid.Pos()), fmt.Sprintf("%d emissions, each preceded by a comparison of the in-records' expiry with the clock", len(emits)), "processIncomingData delivers according to the in-records of the matched entries without looking at their expiry: the entry lives until its longest-lived record expires, so a face whose Interest expired long ago still receives the Data (and is counted as satisfied)")
+	}
+	if dd := c.Fn("R1.14", "fw/face", "linkServiceBase", "dispatchData"); dd != nil {
+		all := core.FindCallsDeep(dd, core.CalleeID{Pkg: "fw/fw", Name: "HashNameToAllPrefixFwThreads"})
+		exact := core.FindCallsDeep(dd, core.CalleeID{Pkg: "fw/fw", Name: "HashNameToFwThread"})
+		scoped := false
+		if len(all) > 0 {
+			local := &core.Atom{Name: "arrival face is local", Match: func(cond ssa.Value) (int, int) {
+				op, x, y, ok := core.Cmp(cond)
+				if !ok || (op != token.EQL && op != token.NEQ) {
+					return 0, 0
+				}
+				isScope := func(v ssa.Value) bool {
+					cl, isC := core.Strip(v).(*ssa.Call)
+					if !isC {
+						return false
+					}
+					if cl.Call.IsInvoke() {
+						return cl.Call.Method.Name() == "Scope"
+					}
+					id, okID := core.Callee(&cl.Call)
+					return okID && id.Name == "Scope"
+				}
+				if isScope(x) || isScope(y) {
+					return core.Iff(op == token.EQL)
+				}
+				return 0, 0
+			}}
+			cut, n := core.CutEdgesDeep(dd, pos(local), neg(local))
+			if n[0]+n[1] > 0 {
+				for _, a := range all {
+					if core.ReachInstr(dd, a, cut, nil) == nil {
+						scoped = true
+					}
+				}
+			}
+		}
+		c.Decide(len(all) > 0 && len(exact) == 0 && !scoped, "R1.14", "tokenless-data-dispatched-by-all-prefixes", p.Pos(dd.Pos()), "Data without a PIT token of ours goes to the threads of all its name prefixes, for every kind of face", "dispatchData hands Data without one of our PIT tokens to the thread of its full name only (or dispatches by all prefixes only for some faces): with more than one forwarding thread an Interest with CanBePrefix, pending in the thread of its own shorter name, never sees the Data")
+	}
+	if hp := c.Fn("R1.15", "fw/fw", "", "HashNameToAllPrefixFwThreads"); hp != nil {
+		n, partial := 0, ""
+		core.Instrs(hp, func(in ssa.Instruction) {
+			ia, ok := in.(*ssa.IndexAddr)
+			if !ok {
+				return
+			}
+			cl, isC := core.Strip(ia.X).(*ssa.Call)
+			if !isC {
+				return
+			}
+			if id, okID := core.Callee(&cl.Call); !okID || id.Name != "PrefixHash" {
+				return
+			}
+			n++
+			if tr, why := core.TraversalOf(ia); tr != core.TraversalFull {
+				partial = why
+			}
+		})
+		c.Decide(n > 0 && partial == "", "R1.15", "all-prefixes-include-the-empty-prefix", p.Pos(hp.Pos()), "the prefix hashes are scanned from index 0", "HashNameToAllPrefixFwThreads does not visit every prefix hash ("+partial+"): the thread in which an Interest for the zero-component name with CanBePrefix is pending never receives token-less Data")
+	}
 }
